@@ -16,7 +16,7 @@ cleanup() {
     git -C /repo worktree remove --force "$WT" >/dev/null 2>&1
     rm -rf "$WT"
     KEY=alt_$(python3 -c "import hashlib,sys;print(hashlib.sha1(sys.argv[1].encode()).hexdigest()[:10])" "$WT")
-    rm -rf "/verif/.work/target/$KEY"
+    rm -rf "/verif/.work/alt/$KEY"
   fi
 }
 trap cleanup EXIT
